@@ -371,8 +371,13 @@ def check_ast_node(name):
 
 
 def get_nosec(nosec_lines, context):
+    found = None
     for lineno in context["linerange"]:
         nosec = nosec_lines.get(lineno, None)
         if nosec is not None:
-            return nosec
-    return None
+            if not nosec:
+                # blanket nosec: nothing more to learn from later lines
+                return nosec
+            # every nosec comment of the statement counts, not only the first
+            found = nosec if found is None else found | nosec
+    return found
